@@ -238,7 +238,7 @@ pub fn overlap_scenario(r: &mut Report, c: &Case) {
 }
 
 /// Majority rule with scripted storing nodes: n <= 5, every split of 301 / 302 / ack.
-/// kind: 0 put_mutable (with cas), 1 put_immutable, 2 announce_peer, 3 announce_signed_peer
+/// kind: 0 put_mutable (with cas), 1 put_immutable, 2 announce_peer, 3 announce_signed_peer, 4 put_mutable without cas
 pub fn majority_scenario(r: &mut Report, seed: u64, fates: &[u8], kind: u8) {
     r.eval();
     let mut rng = Rng::new(seed);
@@ -281,6 +281,7 @@ pub fn majority_scenario(r: &mut Report, seed: u64, fates: &[u8], kind: u8) {
     let ih = Id::from(rng.array::<20>());
     let request = match kind {
         0 => PutRequestSpecific::PutMutable(PutMutableRequestArguments::from(item, Some(2))),
+        4 => PutRequestSpecific::PutMutable(PutMutableRequestArguments::from(item, None)),
         1 => {
             let v = rng.blob(3, 30);
             PutRequestSpecific::PutImmutable(dht::verif::PutImmutableRequestArguments { target: Id::from(crate::sha1::immutable_target(&v)), v: v.into_boxed_slice() })
@@ -304,7 +305,7 @@ pub fn majority_scenario(r: &mut Report, seed: u64, fates: &[u8], kind: u8) {
         other => format!("{other:?}"),
     };
     let detail = json!({"acks": acks, "e301": e301, "e302": e302, "half": half, "result": got});
-    if kind != 0 {
+    if kind != 0 && kind != 4 {
         // immutable and announce puts never end in a concurrency error, and one ack makes them succeed
         if got == "CasFailed" || got == "NotMostRecent" || got.contains("Concurrency") {
             r.violation("majority/concurrency-error-for-non-mutable-put", "CasFailed / NotMostRecent produced for an immutable or announce put", case.clone(), detail.clone());
@@ -394,6 +395,10 @@ pub fn run(a: &Args) -> Report {
             let fates: Vec<u8> = (0..n).map(|_| { let f = (x % 3) as u8; x /= 3; f }).collect();
             let seed = mix(a.seed, 0x3a70 + code);
             super::guarded(&mut r, json!({"class":"majority","seed":seed.to_string(),"fates":fates,"kind":0}), |r| majority_scenario(r, seed, &fates, 0));
+            // the same split for a mutable put that carries no cas (what the storing nodes answer is their business)
+            let seed4 = mix(seed, 4);
+            super::guarded(&mut r, json!({"class":"majority","seed":seed4.to_string(),"fates":fates,"kind":4}), |r| majority_scenario(r, seed4, &fates, 4));
+            r.count("majority_splits_mutable_without_cas");
             // the same split for one of the three non-mutable kinds
             let kind = 1 + (code % 3) as u8;
             let seed2 = mix(seed, kind as u64);
